@@ -3,7 +3,8 @@ import ast, dis, os, sys, json, types, contextlib
 from .. import common, ser, evalgen, evaldrive
 from . import base
 
-THEOREMS = ['C12_order', 'C12_split_spec', 'C12_split_refuted', 'C12_history_single_line', 'C12_history_first_use', 'C12_history_refuted']
+THEOREMS = ['C12_order', 'C12_split_spec', 'C12_split_refuted', 'C12_history_single_line', 'C12_history_first_use', 'C12_history_refuted',
+            'C12_jumps_retargeted', 'C12_patch_keeps_opcodes']
 HEADER = 'From AY Require Import Model.Eq Model.EvalCode.\nOpen Scope Z_scope.\n'
 WRAPPER = '__ayns_globals_wrapper'
 
@@ -191,6 +192,27 @@ def run(rep, tier, rng):
     rep.checker_cmds.append(cmd)
     rep.oblige(f'T3 correspondence Model.EvalCode.run_history = the values read in {len(items)} build sequences run in one process (module cache incl.)', not bad and not errors and not hbad,
                (f'{len(bad)} disagreements, first {hcases[bad[0]] if bad else ""}' if bad else '') + (f' {hbad} crashed' if hbad else '') + (errors[0]['log'][-400:] if errors else ''))
+    # T3: the bytecode rewriter, byte for byte, on natively compiled code objects of grammar programs (nothing is executed)
+    from .. import patchcorr
+    sys.path.insert(0, common.REPO)
+    from awesomeyaml.nodes.eval import EvalNode
+    pitems, pstats = [], {}
+    for i in range(120 if tier == 'quick' else 1500):
+        g = evalgen.Gen(rng)
+        code = g.helpers_program() if i % 7 == 3 else g.program(long=(i % 9 == 0), failing=(i % 6 == 0))
+        lines = [l2 for l in code.strip().split('\n') for l2 in l.split(';')]
+        for src, mode in (('\n'.join(lines[:-1]), 'exec'), (lines[-1].strip(), 'eval')):
+            try:
+                co = compile(src, '<p>', mode)
+            except SyntaxError:
+                continue
+            patchcorr.cases_of(co, EvalNode._patch_access_to_globals, pitems, pstats)
+    for k, v in pstats.items():
+        rep.count('patch correspondence: ' + k, v)
+    bad, errors, wall, cmd = common.run_case_files('c12p', patchcorr.HEADER, pitems, patchcorr.CHECK, shard=100)
+    rep.checker_cmds.append(cmd)
+    rep.oblige(f'T3 correspondence Model.Patch.patch = EvalNode._patch_access_to_globals, byte for byte / error class, on {len(pitems)} natively compiled code objects', not bad and not errors,
+               (f'{len(bad)} disagreements' if bad else '') + (errors[0]['log'][-400:] if errors else ''))
     # differential oracle
     n = 250 if tier == 'quick' else 4000
     cases = []
